@@ -150,24 +150,25 @@ def _check_append_mismatch(case):
 NAMESETS = ((), ("a",), ("a", "b"), ("b", "a"), ("b", "c"), ("a", "p"), ("p",), ("e", "a"), ("c", "p", "a"), ("q", "e"))
 
 
-def _mk_tg(names, tag, hi, narrow=False):
+def _mk_tg(names, tag, hi, narrow=False, lo=0.0):
     """narrow: the tiers' own spans end half a second before the textgrid's (legal: addTier only ever widens the
     textgrid, and files may carry tier spans narrower than the file span)"""
-    tg = Textgrid(0.0, hi)
+    tg = Textgrid(lo, hi)
     thi = hi - 0.5 if narrow else hi
     for nm in names:
         if nm in ("p", "q"):
-            tg.addTier(PT(nm, [(1.0, tag + nm)] if nm == "p" else [], 0.0, thi))
+            tg.addTier(PT(nm, [(1.0, tag + nm)] if nm == "p" else [], lo, thi))
         elif nm == "e":
-            tg.addTier(IT("e", [], 0.0, thi))
+            tg.addTier(IT("e", [], lo, thi))
         else:
-            tg.addTier(IT(nm, [(0.0, 1.0, tag + nm), (1.0, thi, tag + nm + "2")], 0.0, thi))
+            tg.addTier(IT(nm, [(lo, 1.0, tag + nm), (1.0, thi, tag + nm + "2")], lo, thi))
     return tg
 
 
 def _check_append_tg(case):
-    NA, NB, flag, ha, hb, narrowA, narrowB = case
-    A, B = _mk_tg(NA, "A", ha, narrowA), _mk_tg(NB, "B", hb, narrowB)
+    NA, NB, flag, ha, hb, narrowA, narrowB = case[:7]
+    loA = case[7] if len(case) > 7 else 0.0      # the receiver may start after time 0 (a cut-out of a longer recording): the result starts where A starts
+    A, B = _mk_tg(NA, "A", ha, narrowA, loA), _mk_tg(NB, "B", hb, narrowB)
     snapA, snapB = snap_tg(A), snap_tg(B)
     st, R, out = call(A.appendTextgrid, B, flag)
     if st == "ok":
@@ -186,8 +187,8 @@ def _check_append_tg(case):
     msg = None
     if tuple(R.tierNames) != expn:
         msg = f"tier set/order {R.tierNames}, documented {expn}"
-    elif (R.minTimestamp, R.maxTimestamp) != (0.0, ha + hb):
-        msg = f"textgrid span ({R.minTimestamp},{R.maxTimestamp}), expected (0,{ha + hb})"
+    elif (R.minTimestamp, R.maxTimestamp) != (loA, ha + hb):
+        msg = f"textgrid span ({R.minTimestamp},{R.maxTimestamp}), expected ({loA},{ha + hb})"
     else:
         for nm in expn:
             ea = ents(A.getTier(nm)) if nm in NA else []
@@ -196,8 +197,8 @@ def _check_append_tg(case):
             if ents(t) != ea + eb:
                 msg = f"tier {nm}: entries {ents(t)}, expected {ea + eb}"
                 break
-            if nm in NB and (t.minTimestamp, t.maxTimestamp) != (0.0, ha + hb):
-                msg = f"tier {nm}: span ({t.minTimestamp},{t.maxTimestamp}), expected (0,{ha + hb})"
+            if nm in NB and (t.minTimestamp, t.maxTimestamp) != (loA, ha + hb):
+                msg = f"tier {nm}: span ({t.minTimestamp},{t.maxTimestamp}), expected ({loA},{ha + hb})"
                 break
             w = wellformed(t)
             if w:
@@ -415,6 +416,8 @@ def parts(tier):
                     for ha, hb in ((2.0, 3.0), (3.0, 2.0)):
                         for narrowA, narrowB in ((False, False), (True, False), (False, True), (True, True)):
                             yield (NA, NB, flag, ha, hb, narrowA, narrowB)
+                    yield (NA, NB, flag, 2.0, 3.0, False, False, 0.5)      # A starts at 0.5
+                    yield (NA, NB, flag, 3.0, 2.0, True, False, 0.25)
 
     ps.append(InputPart(
         "append-textgrid", gen_atg, _check_append_tg,
